@@ -256,9 +256,9 @@ class Ctx:
             rc, out = sh(["lake", "env", "lean", f], cwd=LEAN, timeout=1200)
         self.checker_cmds.append("lake env lean <#print axioms of %d theorems>" % len(names))
         seen = {}
-        for m in re.finditer(r"'([^']+)' depends on axioms: \[([^\]]*)\]", out.replace("\n", " ")):
+        for m in re.finditer(r"'(\S+)' depends on axioms: \[([^\]]*)\]", out.replace("\n", " ")):
             seen[m.group(1)] = {a.strip() for a in m.group(2).split(",") if a.strip()}
-        for m in re.finditer(r"'([^']+)' does not depend on any axioms", out):
+        for m in re.finditer(r"'(\S+)' does not depend on any axioms", out):
             seen[m.group(1)] = set()
         ok = rc == 0
         for n in names:
